@@ -303,9 +303,6 @@ Section File.
   Lemma line_voter_eq st a : wf_attrs st a = true -> line_voter st a = mkVoter (map fst a) (canon_dialect st a).
   Proof. intros H. unfold line_voter, voter_of_attr_string. rewrite (l_parse_attrs isw Hw Heq Hsp st a H). reflexivity. Qed.
 
-  Definition style_fmt (st : style) : str := match st_kv st with KvSpaceQuoted => GTF | _ => GFF3 end.
-  Definition style_kvsep (st : style) : str := match st_kv st with KvEq => [EQ] | _ => [SP] end.
-  Definition style_quoted (st : style) : bool := match st_kv st with KvSpaceQuoted => true | _ => false end.
 
   Lemma canon_fields st a : (2 <= nparts st a)%nat ->
     d_leading (canon_dialect st a) = false /\ d_trailing (canon_dialect st a) = st_trailing st /\
